@@ -424,8 +424,12 @@ def _run_native_seed(case, res):
     J = mats_[case["k"]]
     m = J.shape[0]
     c1s = [tuple(A.L1[(i + r) % 3] for i in range(m)) for r in range(3)] + [tuple(0.3 * (i + 1) for i in range(m)), tuple(0.7 ** i for i in range(m))]
-    for name, agg in (("PCGrad", T.PCGrad()), ("Random", T.Random())):
-        for c1 in c1s:
+    # one row 1e4 / 1e5 times smaller (or larger) than the others inside one operand, in float32 as well: a row is a projection target
+    # however small it is relative to the others (added after a seeded change: rows below sqrt(eps) x the largest norm skipped)
+    wide = [tuple(f if i == r else 1.0 for i in range(m)) for r in range(m) for f in (1e-4, 1e-5, 1e4)]
+    for name, agg, dtype, tol_rel in (("PCGrad", T.PCGrad(), torch.float64, 1e-9), ("Random", T.Random(), torch.float64, 1e-9),
+                                      ("PCGrad", T.PCGrad(), torch.float32, 1e-4), ("Random", T.Random(), torch.float32, 1e-4)):
+        for c1 in c1s + wide:
             for c2 in (tuple([1.0] * m), c1[::-1]):
                 for (a, b) in AB:
                     c0 = _c0(c1, c2, a, b)
@@ -434,17 +438,17 @@ def _run_native_seed(case, res):
                         for c in (c0, c1, c2):
                             torch.manual_seed(z)
                             res["execs"] += 1
-                            xs.append(agg(torch.tensor(np.array(c)[:, None] * J, dtype=torch.float64)).numpy())
+                            xs.append(agg(torch.tensor(np.array(c)[:, None] * J, dtype=dtype)).double().numpy())
                         S = max(A.sigma_max(np.array(c)[:, None] * J) for c in (c0, c1, c2))
                         err = float(np.abs(xs[0] - a * xs[1] - b * xs[2]).max())
-                        tol = 1e-9 * S
-                        ok = f"native-seed:{name}"
+                        tol = tol_rel * S
+                        ok = f"native-seed:{name}:{str(dtype)[6:]}"
                         res["maxima"][ok] = max(res["maxima"].get(ok, 0.0), err / tol)
                         res["counters"]["evaluations"] += 1
                         res["nontrivial"] += 1
                         if not (err <= tol):
                             res["viol"].append(dict(sig=f"nonlinear:{name}:native-seed", cls=f"nonlinear:{name}:native-seed",
-                                                    msg=f"{name} manual_seed({z}) J={J.tolist()} c1={c1} c2={c2} a={a} b={b}: A(c0)={xs[0].tolist()} "
+                                                    msg=f"{name} {str(dtype)[6:]} manual_seed({z}) J={J.tolist()} c1={c1} c2={c2} a={a} b={b}: A(c0)={xs[0].tolist()} "
                                                         f"a*A(c1)+b*A(c2)={(a * xs[1] + b * xs[2]).tolist()} err/tol={err / tol:.3g}"[:600]))
         res["outcomes"].add(digest([name, case["k"]]))
 
@@ -500,6 +504,9 @@ def _run_upgrad(case, res):
         # the rungs that run with the default norm_eps = 1e-4 use the matrix scaled by 0.05: its smallest singular values then fall BELOW
         # norm_eps while the largest stays above it (the cut-off must apply to the largest singular value only)
         rn_small = Runner(J * 0.05)
+        # ... and, for reg = 1e-12, by 0.002: sigma_max lands between norm_eps and sqrt(norm_eps) (added after a seeded change that
+        # compared norm_eps with the largest EIGENvalue of the Gramian, i.e. with sigma_max squared)
+        rn_tiny = Runner(J * 0.002)
         conflict = _conflict(J)
         for pk, p in enumerate(A.pref_vectors(m)):
             if 1 <= pk <= m and pk != 1:
@@ -536,6 +543,9 @@ def _run_upgrad(case, res):
                         continue
                     small = ne == 1e-4 and min(rn_small.sigma(c) for c in (c0, c1, c2)) >= 2e-4
                     r_ = rn_small if small else rn
+                    if reg == 1e-12 and min(rn_tiny.sigma(c) for c in (c0, c1, c2)) >= 2e-4:
+                        r_ = rn_tiny
+                        res["counters"]["tiny_scale_evaluations"] += 1
                     xs = [r_.run(key, build, [], c) for c in (c0, c1, c2)]
                     bad = [x for x in xs if isinstance(x, Exception)]
                     if bad:
